@@ -20,6 +20,12 @@ CLAIMED = {
  "C13": ("proof", "abstract evaluation of the generated predicate tables (go/ast + go/types) against an independently computed ontology closure",
    "The whole statement is decided for the shipped vocabularies: the exact denotation of every Extends / IsExtendedBy / IsOrExtends / IsDisjointWith predicate (63 types x 4 families) is computed from source by an evaluator that accepts six statement forms and fails on anything else, and compared for all 63x63 ordered pairs with the transitive closure computed by the checker's own reader from the four JSON-LD ontologies; converse, symmetry and irreflexivity are checked on the extracted relations, and every exported wrapper and IsExtending method is resolved to the predicate it delegates to.",
    "Trusted base: go/parser + go/types, the checker's JSON-LD reader and closure code, the evaluator's accepted forms, and that GetTypeName() returns the literal extracted (checked equal to the ontology name). Only the four shipped vocabularies are covered; the generator is not analysed.", "DESIGN.md §4 C13"),
+ "C05": ("other", "SSA dominance/ordering rules + must-facts gates + error-discipline may-analysis over everything reachable from deliver",
+   "Decides the ordering and pairing clauses on all SSA paths: wrap (non-activities only) ≺ new ids ≺ store/side effects ≺ delivery (only with the federated flag and deliverable), every later step in the success region of every earlier one and no failure swallowed anywhere below deliver; addToOutbox creates the activity, then prepends exactly its id once to the page it read (fresh items property installed) and saves that page; every object of a Create gets its own fresh id property; social Create normalises before the first store. Does not decide union semantics of the normalisation or 'newest first' over histories.",
+   "A custom DelegateActor is outside the library. CFG paths over-approximate feasible ones; value-level set semantics are not decided. Trusted: go/types, go/ssa, checker engines E1/E2/E9.", "DESIGN.md §4 C05"),
+ "C06": ("other", "SSA must-facts gates + intra-procedural value-flow (which data feeds which comparison) + total-loop shape + error discipline",
+   "Decides that each authority check guards the effects it is meant to guard and is a check of the right data: the origin check (Host field of GetId(activity) vs Host field of ToId(each object), total loop) precedes every effect of Update/Delete; Accept's verification reads the Follow from the local Database and checks actor and objects on that stored value before 'following' is touched; Undo's application callback runs only after every actor of every fetched object was looked up in the set of the Undo's own actors; the block check receives an id derived from each actor element.",
+   "Value flow is an over-approximation (absence of a flow is exact). Host-string semantics beyond the choice of the Host field are not decided. Trusted: go/types, go/ssa, checker engines E1/E2/E4/E9.", "DESIGN.md §4 C06"),
 }
 NOT_YET = {}
 ALL = ["C%02d" % i for i in range(1, 21)]
